@@ -635,14 +635,79 @@ theorem C10.rosenbrock_loop_frame {K : Type} [Add K] [Sub K] [Mul K] [OfNat K 1]
   | nil => simp [rosenLoop, exec]
   | cons i is ih =>
     obtain ⟨h1, h2, h3⟩ := ih (s.write (env .out)
-      ((fun a k => if k = i then
-          (1 + 1) * c * (a 1 i - a 1 (i - 1) * a 1 (i - 1))
-            - (1 + 1 + 1 + 1) * c * (a 1 (i + 1) - a 1 i * a 1 i) * a 1 i - (1 + 1) * (1 - a 1 i)
-        else a 0 k) (srcVals env s .out [.out, .x])))
+      ((fun a k => if k = i then rosenInnerVal c (a 1) i else a 0 k)
+        (srcVals env s .out [.out, .x])))
     simp only [rosenLoop, rosenInner, exec]
     refine ⟨h1, by rw [h2]; rfl, fun b hb => ?_⟩
     rw [h3 b hb]
     simp [St.write, hb]
+
+/-- When `x` and `out` are DIFFERENT objects, the loop leaves in `out[k]`, for every index `k` of
+the list, the interior formula evaluated on the (unchanged) input; other entries keep their value. -/
+theorem C10.rosenbrock_loop_value {K : Type} [Add K] [Sub K] [Mul K] [OfNat K 1]
+    (c : K) (jk : Nat → Vec K) (is : List Nat) (env : Env) (s : St K) (hxo : env .x ≠ env .out) :
+    (exec jk (rosenLoop c is) (env, s)).2.mem (env .out) =
+      fun k => if k ∈ is then rosenInnerVal c (s.mem (env .x)) k else s.mem (env .out) k := by
+  induction is generalizing s with
+  | nil => simp [rosenLoop, exec]
+  | cons i is ih =>
+    simp only [rosenLoop, rosenInner, exec]
+    rw [ih]
+    funext k
+    simp only [St.write, srcVals, List.getD_cons_zero, List.getD_cons_succ, hxo, if_true, if_false,
+      List.mem_cons]
+    by_cases hk : k ∈ is <;> by_cases hi : k = i <;> simp [hk, hi]
+
+namespace OdlModel.C10
+/-- The gradient of the Rosenbrock functional as the code means it (entries `k < n`). -/
+def rosenSpec {K} [Add K] [Sub K] [Mul K] [Neg K] [OfNat K 1] (c : K) (n : Nat) (v : Vec K)
+    (k : Nat) : K :=
+  if k = n - 1 then rosenLastVal c n v else if k = 0 then rosenFirstVal c v
+  else rosenInnerVal c v k
+end OdlModel.C10
+
+/-- `RosenbrockGradient._call(x, out)` with `out` NOT `x`, every size `n ≥ 2`, every scale, every
+scalar type: entry `k < n` of `out` receives the gradient formula evaluated on the input. -/
+theorem C10.rosenbrock_gradient_computes_spec {K : Type} [Add K] [Sub K] [Mul K] [Neg K]
+    [OfNat K 1] (c : K) (n : Nat) (hn : 2 ≤ n) (jk : Nat → Vec K) (env : Env) (s : St K)
+    (hxo : env .x ≠ env .out) (k : Nat) (hk : k < n) :
+    (exec jk (rosenProg c n) (env, s)).2.mem (env .out) k = rosenSpec c n (s.mem (env .x)) k := by
+  obtain ⟨h1, h2, h3⟩ := C10.rosenbrock_loop_frame c jk ((List.range (n - 2)).map (· + 1)) env s
+  have hv := C10.rosenbrock_loop_value c jk ((List.range (n - 2)).map (· + 1)) env s hxo
+  have hx := h3 (env .x) hxo
+  simp only [rosenProg, exec]
+  generalize exec jk (rosenLoop c ((List.range (n - 2)).map (· + 1))) (env, s) = E at h1 h2 h3 hv hx
+  obtain ⟨env', s'⟩ := E
+  simp only at h1 h2 h3 hv hx
+  subst h1
+  simp only [exec, St.write, srcVals, List.getD_cons_zero, List.getD_cons_succ, hxo, if_true,
+    if_false, hv, hx, rosenSpec]
+  by_cases hl : k = n - 1
+  · simp [hl]
+  · by_cases h0 : k = 0
+    · simp [hl, h0]
+    · have hmem : k ∈ (List.range (n - 2)).map (· + 1) := by
+        simp only [List.mem_map, List.mem_range]
+        exact ⟨k - 1, by omega, by omega⟩
+      simp [hl, h0, hmem]
+
+/-- The proposed repair suffices, for every size `n ≥ 2`: with `if out is x: x = x.copy()` in
+front, the aliased call leaves in every entry `k < n` of `x` what the non-aliased call writes to
+`out[k]` — the gradient formula on the original input. (About `rosenFixed`, which is not the
+code of /repo: the statement about the code is `C10.rosenbrock_gradient_alias_fails`.) -/
+theorem C10.rosenbrock_gradient_fixed_alias_safe {K : Type} [Add K] [Sub K] [Mul K] [Neg K]
+    [OfNat K 1] (c : K) (n : Nat) (hn : 2 ≤ n) (jk jk' : Nat → Vec K) (m : Nat → Vec K)
+    (j : Vec K) (k : Nat) (hk : k < n) :
+    (run jk (rosenFixed c n) 0 0 m).mem 0 k = rosenSpec c n (m 0) k ∧
+    (run jk' (rosenFixed c n) 0 1 (fun b => if b = 1 then j else m b)).mem 1 k
+      = rosenSpec c n (m 0) k := by
+  constructor
+  · have := C10.rosenbrock_gradient_computes_spec c n hn jk ((env0 0 0).set .x 10)
+      { mem := fun b => if b = 10 then m 0 else m b, next := 11 } (by simp [Env.set, env0]) k hk
+    simpa [run, rosenFixed, exec, env0, Env.set, srcVals] using this
+  · have := C10.rosenbrock_gradient_computes_spec c n hn jk' (env0 0 1)
+      { mem := fun b => if b = 1 then j else m b, next := 10 } (by simp [env0]) k hk
+    simpa [run, rosenFixed, exec, env0, srcVals] using this
 
 /-- Frame for `RosenbrockGradient._call`, every domain size `n` and scale `c`: the input `x` (when
 it is not `out`) and every other existing object are left alone. -/
@@ -669,5 +734,14 @@ theorem C10.rosenbrock_gradient_alias_fails : ¬ AliasSafe (rosenProg (1 : Int) 
   have := congrFun (h (fun _ _ => 0) (fun _ _ => 0)
     (fun _ k => if k = 0 then 1 else if k = 1 then 2 else if k = 2 then -1 else 1) (fun _ => 0)) 2
   revert this
-  simp [run, exec, rosenProg, rosenLoop, rosenInner, env0, St.write, srcVals, List.range,
-    List.range.loop]
+  simp [run, exec, rosenProg, rosenLoop, rosenInner, rosenInnerVal, rosenFirstVal, rosenLastVal,
+    env0, St.write, srcVals, List.range, List.range.loop]
+
+/-- Non-vacuity of `rosenbrock_gradient_computes_spec` / `…_fixed_alias_safe`: n = 4, c = 1,
+x = (1, 2, −1, 1) over ℤ: entry 2 of the gradient is 2(−1 − 4) − 4(1 − 1)(−1) − 2(1 + 1) = −14, by
+the repaired aliased call as well. -/
+example : (run (fun _ _ => 0) (rosenFixed (1 : Int) 4) 0 0
+    (fun _ k => if k = 0 then 1 else if k = 1 then 2 else if k = 2 then -1 else 1)).mem 0 2 = -14 := by
+  rw [(C10.rosenbrock_gradient_fixed_alias_safe (1 : Int) 4 (by omega) _ (fun _ _ => 0) _
+    (fun _ => 0) 2 (by omega)).1]
+  simp [rosenSpec, rosenInnerVal]
